@@ -41,6 +41,30 @@ char *strchr(const char *p, int c)
     return (char *)0;
 }
 
+/* the same for memchr(p, '.', n): a dot within the next n bytes of the string, or none there (A4) */
+void *memchr(const void *q, int c, size_t n)
+{
+    const char *p = (const char *)q;
+#ifdef SP_LITE
+    if (!g_past_cut) __CPROVER_assume(c == '.' && __CPROVER_same_object(p, g_s) && (size_t)(p - g_s) <= g_n);
+#endif
+    __CPROVER_assert(c == '.' && __CPROVER_same_object(p, g_s), "memchr is used for '.' on the input string only");
+    size_t i = (size_t)(p - g_s);
+    __CPROVER_assert(i <= g_n && n <= g_n + 1 - i, "SAFETY: memchr range within the string and its terminator");
+    size_t lim = (i + n < g_n) ? i + n : g_n;
+    if (nondet_bool()) {
+        size_t j = nondet_size();
+        __CPROVER_assume(i <= j && j < lim && p[j - i] == '.' && g_rank[j] == g_rank[i] && g_rank[j + 1] == g_rank[i] + 1);
+        __CPROVER_assume((g_a >= 1 && g_rank[g_a - 1] == g_rank[j]) ==> j == g_a - 1);
+        __CPROVER_assume((g_have_b && g_b >= 1 && g_rank[g_b - 1] == g_rank[j]) ==> j == g_b - 1);
+        __CPROVER_assume((g_have_b && g_rank[j + 1] == g_rank[g_b]) ==> j + 1 == g_b);
+        __CPROVER_assume(g_rank[j + 1] <= j + 1 && g_rank[j + 1] <= g_rank[g_n]);
+        return (void *)(p + (j - i));
+    }
+    __CPROVER_assume(g_rank[lim] == g_rank[i]);
+    return (void *)0;
+}
+
 #ifdef JOB_A
 #define EAV_VERIF_AT_is_special_domain_nodot \
     { __CPROVER_assert(g_rank[g_n] == 0, "CUT: the no-dot shortcut is taken only if the string has no dot"); __CPROVER_assume(0); }
